@@ -962,6 +962,9 @@ mutant('U1-cursor-abstraction-swaps-current-and-new', ['C15'], [
 mutant('P2-facade-sstore-swaps-key-and-value', ['C11'], [
     ('src/precompile.rs', "        match self.internals.sstore(address, key, value) {", "        match self.internals.sstore(address, value, key) {"),
 ], ['|P2|'])
+mutant('P2-facade-set-balance-writes-zero', ['C11'], [
+    ('src/precompile.rs', "            Ok(load) => return Ok(load.map(|mut account| account.set_balance(balance))),", "            Ok(load) => return Ok(load.map(|mut account| account.set_balance(U256::ZERO.min(balance)))),"),
+], ['|P2|'])
 mutant('LC5-validate-stale-test-inverted', ['C05'], [(S, """        if tx_state.incarnation != incarnation {
             self.abort(AbortReason::ParallelError {
                 txid,
